@@ -11,6 +11,7 @@ import Driver.CatalogCmd
 import Driver.ExprCmd
 import Driver.EngineCrashCmd
 import Driver.CleanCmd
+import Driver.CaptureCmd
 /-! `driver`: one request per line on stdin, one answer per line on stdout. -/
 namespace Driver
 
@@ -25,6 +26,7 @@ structure St where
   expr : ExprSt := {}
   crash : CrashSt := {}
   clean : CleanSt := {}
+  capture : CaptureSt := {}
 
 def step (st : St) (line : String) : St × String :=
   let (cmd, args) := parseLine line
@@ -64,6 +66,9 @@ def step (st : St) (line : String) : St × String :=
   else if cmd.startsWith "clean." then
     let (s, out) := cleanHandle st.clean cmd args
     ({ st with clean := s }, out)
+  else if cmd.startsWith "capture." then
+    let (s, out) := captureHandle st.capture cmd args
+    ({ st with capture := s }, out)
   else if cmd == "ping" then (st, "pong")
   else (st, "bad-op")
 
